@@ -117,7 +117,16 @@ def event(t, b, kind, CLS, original=None, name=""):
         return None
     dec, consumed, obj = rd
     e = {"t": t, "b": list(b), "kind": kind, "dec": dec, "consumed": consumed, "reenc_equal": False, "id_equal": True,
-         "roundtrip": True, "name": name}
+         "roundtrip": True, "name": name, "same_enc": True}
+    if dec and t not in ("VlqOnly", "Frame"):
+        # one accepted encoding per value: the bytes this decoder call accounts for, against the first byte string that gave the same value
+        import hashlib
+        try:
+            vk = (t, hashlib.sha256(repr(dump(obj)).encode()).hexdigest())
+            first = _ENC_OF_VALUE.setdefault(vk, bytes(b[:consumed]))
+            e["same_enc"] = first == bytes(b[:consumed])
+        except Exception:
+            pass
     if dec:
         try:
             e["reenc_equal"] = real_encode(t, obj) == b[:consumed]
@@ -132,6 +141,9 @@ def event(t, b, kind, CLS, original=None, name=""):
     elif original is not None:
         e["roundtrip"] = False
     return e
+
+
+_ENC_OF_VALUE = {}
 
 
 def values(rng, quick):
@@ -245,6 +257,12 @@ def run(pid, tier, replay=None):
         if e:
             events.append(e)
             chk.case((t, b), nontrivial=True)
+        # the same object followed by other data in the stream (a second object, padding): the decoder must account for its own bytes only
+        for name, tail in (("followed_by_zero", b"\x00"), ("followed_by_itself", b), ("followed_by_ff", b"\xff" * 7)):
+            e = event(t, b + tail, "bytes", CLS, name=name)
+            if e:
+                events.append(e)
+                chk.case((t, b + tail), nontrivial=True)
         if len(b) > 3000 and quick:
             continue
         for name, mb in wiregen.mutations(t, b, rng, budget=budget):
@@ -312,7 +330,7 @@ def run(pid, tier, replay=None):
                         except Exception:
                             same = False
                         fresh = real_decode(t_, canon, CLS)
-                        events.append({"t": t_, "b": list(canon), "kind": "stored", "dec": True, "consumed": len(canon), "reenc_equal": same,
+                        events.append({"t": t_, "b": list(canon), "kind": "stored", "dec": True, "consumed": len(canon), "reenc_equal": same, "same_enc": True,
                                        "id_equal": ids_ok(o_) and bool(fresh and fresh[0] and fresh[2].hash() == o_.hash()),
                                        "roundtrip": True, "name": "from_store"})
                         nstored += 1
@@ -348,7 +366,7 @@ def run(pid, tier, replay=None):
         e = events[idx]
         sig = {"clause": clause, "cause": "nonminimal_vlq" if (e["name"].startswith("nonminimal") or e["name"] in ("vlq2", "vlq4", "vlq1", "random", "flip_byte", "stripped_leading_80") and not e["reenc_equal"]) else e["name"]}
         chk.violation(clause, {"type": e["t"], "bytes_hex": bytes(e["b"]).hex(), "how": e["name"],
-                               "observed": {k: e[k] for k in ("dec", "consumed", "reenc_equal", "id_equal", "roundtrip")}}, sig)
+                               "observed": {k: e[k] for k in ("dec", "consumed", "reenc_equal", "id_equal", "roundtrip", "same_enc")}}, sig)
     chk.extra["rule"] = ("calls of the real codecs: every generated value of the 10 consensus types and 9 message types encoded and decoded; for each valid "
                          "encoding, mutations placed by the grammar (1-3 extra leading 0x80 at every VLQ/count, counts +-1, every other tag value, length bytes, "
                          "truncation at every field boundary, trailing data, bit flips); VLQ strings of 1-2 bytes exhaustively (quick: a sample of first bytes); random bytes")
